@@ -60,7 +60,8 @@ namespace Givaro {
         t.d = x;
         if (t.u.exponent == 0) {
             // Denormal numbers
-            num = (x<0.?-t.u.mantissa:t.u.mantissa);
+            Integer tt( static_cast<uint64_t>(t.u.mantissa) );
+            num = (x<0.?-tt:tt);
             den = 1;
             *this/=Rational(Integer(1)<<1074);
         } else {
